@@ -280,6 +280,30 @@ fn main() {
             Some("SEQ") => run_seq(&mut t, &mut out),
             Some("TH") => run_threads(&mut t, &mut out),
             Some("STRESS") => run_stress(&mut t, &mut out),
+            Some("BIG") => {
+                // thousands of lent values on a thread with a small stack: lending and releasing must not recurse
+                let n: u64 = t.next().unwrap().parse().unwrap();
+                let kib: usize = t.next().unwrap().parse().unwrap();
+                let line = std::thread::Builder::new()
+                    .stack_size(kib * 1024)
+                    .spawn(move || {
+                        let before = LIVE.load(SeqCst);
+                        let u = Unimock::new(());
+                        let sum: u64 = {
+                            let refs: Vec<&ValA> = (0..n).map(|v| u.make_ref(ValA::new(v))).collect();
+                            refs.iter().map(|r| r.0).sum()
+                        };
+                        let during = LIVE.load(SeqCst) - before;
+                        // (make_mut is not part of this run: replacing a long chain drops it recursively on the
+                        //  unchanged tree too - noted in DESIGN.md as outside the property's "thousands of values")
+                        drop(u);
+                        format!("big sum={sum} during={during} end={}", LIVE.load(SeqCst) - before)
+                    })
+                    .unwrap()
+                    .join()
+                    .unwrap_or_else(|_| "big panicked".to_string());
+                writeln!(out, "{line}").unwrap();
+            }
             other => panic!("bad case kind {other:?}"),
         }
         writeln!(out, "--").unwrap();
